@@ -62,6 +62,9 @@ func (g *gen) chanOut(name string, typ types.Type) (types.Type, types.ChanDir, e
 	if !ok {
 		return nil, types.SendRecv, fmt.Errorf("%s is not a channel: %s", name, typ)
 	}
+	if chanType.Dir() == types.SendOnly {
+		return nil, types.SendOnly, fmt.Errorf("%s cannot receive from a send only channel: %s", name, typ)
+	}
 	return chanType.Elem(), chanType.Dir(), nil
 }
 
